@@ -13,6 +13,7 @@ import (
 	"os"
 	"sort"
 	"strings"
+	"sync"
 
 	"verifharness/internal/rng"
 )
@@ -28,6 +29,35 @@ func (e *emitter) emit(op string) {
 	real := streams[e.stream].run(op)
 	fmt.Fprintf(e.w, "%s\t%s\t%s\n", e.stream, op, real)
 	e.n++
+}
+
+// emitAll runs the real code on many independent ops in parallel and writes the lines in order.
+func (e *emitter) emitAll(ops []string, workers int) {
+	if workers < 1 {
+		workers = 1
+	}
+	res := make([]string, len(ops))
+	var wg sync.WaitGroup
+	ch := make(chan int)
+	run := streams[e.stream].run
+	for w := 0; w < workers; w++ {
+		wg.Add(1)
+		go func() {
+			defer wg.Done()
+			for i := range ch {
+				res[i] = run(ops[i])
+			}
+		}()
+	}
+	for i := range ops {
+		ch <- i
+	}
+	close(ch)
+	wg.Wait()
+	for i, op := range ops {
+		fmt.Fprintf(e.w, "%s\t%s\t%s\n", e.stream, op, res[i])
+		e.n++
+	}
 }
 
 // A stream pairs a generator of inputs / operation lists with a function that executes one
